@@ -24,7 +24,7 @@ ObsNext ==
         /\ st' = [n \in Node |-> InitNode(n)] /\ net' = {} /\ clock' = 0
         /\ ledger' = [n \in Node |-> <<>>] /\ mid' = [n \in Node |-> FALSE]
         /\ panic' = FALSE /\ hist' = <<>>
-        /\ freshN' = 0 /\ freshAt' = -1 /\ topHb' = 0 /\ arrivals' = 0 /\ ftimes' = <<>> /\ deadEval' = -1
+        /\ GhostReset
      ELSE
         /\ hist' = <<l, e>>
         /\ clock' = e.clock
